@@ -52,6 +52,15 @@ def _index_hook(eng, base, idx):
     return NotImplemented
 
 
+def _setitem_hook(eng, base, idx, v):
+    if isinstance(base, MatC):
+        if isinstance(idx, tuple) and len(idx) == 2 and all(isinstance(k, int) for k in idx):
+            base.rows[idx[0]][idx[1]] = v
+            return True
+        raise OutsideSubset("matrix store with symbolic index")
+    return NotImplemented
+
+
 def vertex(name):
     return Obj("Vertex", {"__module__": MESH, "t": z3.Real(name + "_t"), "x": z3.Real(name + "_x"), "idx": -1}, label=name)
 
@@ -199,6 +208,7 @@ def install(eng):
     if _matmul not in cls.arith_hooks:
         cls.arith_hooks = [_matmul] + list(cls.arith_hooks)
         cls.index_hooks = list(cls.index_hooks) + [_index_hook]
+        cls.setitem_hooks = [_setitem_hook] + list(cls.setitem_hooks)
     eng.spec_funcs["is_quarter"] = s_is_quarter
     eng.spec_funcs["hier_spec"] = s_hier_spec
     eng.spec_funcs["hh2_spec"] = s_hh2_spec
